@@ -124,6 +124,12 @@ class Model:
 
 
 def check_queries(q, m, obs, hist):
+    if len(hist) % 11 == 5:
+        from vlib.monitors import poke
+        poke(q, ctx().EventQueue())
+        for _ts, _e in list(q.queue)[:3]:
+            poke(_e, ctx().make("R", _ts))
+        obs.ev("objects_printed_compared_hashed_between_operations")
     if len(q) != len(m.items):
         obs.violate("len_wrong", f"len(queue)={len(q)} pending={len(m.items)}", history=hist[-12:])
         return False
